@@ -455,37 +455,39 @@ def Stage.take (g : Stage) (r : Resp) : Stage :=
 def Stage.noteRecv (g : Stage) (r : Resp) : Stage :=
   { g with recv := if r.counts then g.recv + 1 else g.recv, upDone := g.upDone || !r.isVal }
 
+/-- does the worker thread of an eager stage run now?  One oracle bit per opportunity. -/
+def Stage.choose (g : Stage) (w : World) : Bool × World :=
+  if g.mayPrefetch then
+    match w.orc with
+    | b :: rest => (b, { w with orc := rest })
+    | [] => (false, w)
+  else (false, w)
+
 /-- one `next()` on the outermost stage of `stages` (outermost first; `[]` = the source) -/
 def next : Nat → List Stage → World → Resp × List Stage × World
-  | _, [], w => let (r, s') := w.src.next; (r, [], { w with src := s' })
+  | _, [], w => (w.src.next.1, [], { w with src := w.src.next.2 })
   | 0, ss, w => (.fuel, ss, w)
   | f + 1, g :: up, w =>
-    -- the worker thread of an eager stage may run now
-    let pre : Bool × World :=
-      if g.mayPrefetch then
-        match w.orc with
-        | b :: rest => (b, { w with orc := rest })
-        | [] => (false, w)
-      else (false, w)
-    if pre.1 then
-      match next f up pre.2 with
-      | (.fuel, up', w') => (.fuel, g :: up', w')
-      | (r, up', w') => next f ({ g.noteRecv r with inq := g.inq ++ [r] } :: up') w'
+    let c := g.choose w
+    if c.1 then
+      -- the worker thread fetches one more upstream answer
+      let (r, up', w') := next f up c.2
+      if r = .fuel then (.fuel, g :: up', w')
+      else next f ({ g.noteRecv r with inq := g.inq ++ [r] } :: up') w'
     else
-      let w := pre.2
       match g.pend with
-      | v :: rest => (.val v, { g with pend := rest, hand := g.hand + 1 } :: up, w)
+      | v :: rest => (.val v, { g with pend := rest, hand := g.hand + 1 } :: up, c.2)
       | [] =>
         match g.mode with
-        | .stop => (.done, g :: up, w)
-        | .fail e => (.err e, { g with mode := .stop, hand := g.hand + 1 } :: up, w)
+        | .stop => (.done, g :: up, c.2)
+        | .fail e => (.err e, { g with mode := .stop, hand := g.hand + 1 } :: up, c.2)
         | .run =>
           match g.inq with
-          | r :: q => next f (({ g with inq := q }).take r :: up) w
+          | r :: q => next f (({ g with inq := q }).take r :: up) c.2
           | [] =>
-            match next f up w with
-            | (.fuel, up', w') => (.fuel, g :: up', w')
-            | (r, up', w') => next f ((g.noteRecv r).take r :: up') w'
+            let (r, up', w') := next f up c.2
+            if r = .fuel then (.fuel, g :: up', w')
+            else next f ((g.noteRecv r).take r :: up') w'
 
 /-- consume: call `next` until it does not return a value, at most `k` times.
     Returns the values, the last non-value answer (`none` if `k` calls all returned values) and
